@@ -326,7 +326,11 @@ func genC20(g *Gen) {
 // DNs, users without a password attribute, empty passwords), all binds
 func genC19(g *Gen) {
 	r := g.rng
-	dns := []string{"cn=a", "cn=ab", "cn=a,dc=x", "cn=b", "CN=A"}
+	dns := []string{"cn=a", "cn=ab", "cn=a,dc=x", "cn=b", "CN=A", "cn=a+uid=7,dc=x", "cn="}
+	// other spellings of the same names: the bind DN must be EXACTLY a user's DN, so none of these
+	// is a stored DN's equal (type case, blanks, separators, escapes, RDN order, trailing parts)
+	spellings := []string{"CN=a", "cn=a, dc=x", "cn=a;dc=x", "cn=a,dc=x,", "cn=\\61", "cn=a,DC=x", "uid=7+cn=a,dc=x",
+		"cn=a+uid=7, dc=x", "cn=a,dc=x,dc=", "Cn=ab", " cn=a", "cn=a "}
 	pws := []string{"", "p", "pq", "q"}
 	for i := 0; i < g.n; i++ {
 		k := r.Intn(5)
@@ -351,7 +355,7 @@ func genC19(g *Gen) {
 			us = append(us, entryStr2(dn, attrs))
 		}
 		var ops []string
-		for _, dn := range append(dns, "", "cn=zzz") {
+		for _, dn := range append(append(append([]string{}, dns...), "", "cn=zzz"), spellings...) {
 			for _, pw := range pws {
 				ops = append(ops, "bind "+hxs(dn)+" "+hxs(pw))
 			}
